@@ -39,6 +39,12 @@ func VInstallHooks() {
 				s.Point("badger:snapshot")
 			case badger.VerifBeforeCommit:
 				s.Point("badger:commit")
+			case badger.VerifBackupStart:
+				s.Point("badger:backup-start")
+			case badger.VerifBackupDone:
+				s.Point("badger:backup-done")
+			case badger.VerifMaxVersion:
+				s.Point("badger:max-version")
 			}
 		}
 	}
